@@ -70,6 +70,30 @@ func linuxTarget(c *Case) (*linuxm.State, error) {
 	return b, nil
 }
 
+// bareProtoMatch returns the first rule line with "-m tcp|udp|icmp" that
+// uses no option of that match.
+func bareProtoMatch(text string) string {
+	for _, line := range strings.Split(text, "\n") {
+		f := strings.Fields(line)
+		for i := 0; i+1 < len(f); i++ {
+			if f[i] != "-m" || (f[i+1] != "tcp" && f[i+1] != "udp" && f[i+1] != "icmp") {
+				continue
+			}
+			used := false
+			for _, w := range f {
+				switch w {
+				case "--sport", "--dport", "--source-port", "--destination-port", "--syn", "--tcp-flags", "--tcp-option", "--icmp-type":
+					used = true
+				}
+			}
+			if !used {
+				return line
+			}
+		}
+	}
+	return ""
+}
+
 func linuxParse(c *Case) (a, b *linuxm.State, early *Verdict) {
 	ret := func(v Verdict) (*linuxm.State, *linuxm.State, *Verdict) { return nil, nil, &v }
 	a, err := linuxm.ParseFile(c.Files["device"])
@@ -78,6 +102,11 @@ func linuxParse(c *Case) (a, b *linuxm.State, early *Verdict) {
 	}
 	if b, err = linuxTarget(c); err != nil {
 		return ret(uncovered("target: " + err.Error()))
+	}
+	if l := bareProtoMatch(c.Files["code/router"]); l != "" {
+		// Whether a device prints a protocol match that was loaded without
+		// any of its options is outside what the model knows.
+		return ret(uncovered("target: protocol match without option: " + l))
 	}
 	if !linuxm.BuiltinsConsistent(a.Rules, b.Rules) {
 		return ret(uncovered("built-in chains of device and target differ: no kernel state / no realisable target"))
